@@ -39,10 +39,12 @@ GEN = _d.datetime(2022, 2, 2, 2, 2, 2, tzinfo=UTC)
 
 DESCS = {
     "A": ("c16/a", [("string", "s"), ("varint", "n"), ("datetime", "ts1"), ("datetime", "ts2"), ("string", "x")]),
+    # a later generation of the SAME record type name with a different field set
+    "A2": ("c16/a", [("string", "s"), ("varint", "n"), ("string", "y"), ("datetime", "ts2")]),
     "B": ("c16/b", [("varint", "n"), ("string", "s"), ("boolean", "flag")]),
     "C": ("c16/c", [("string", "other"), ("datetime", "when")]),
 }
-ALL_FIELDS = ["s", "n", "ts1", "ts2", "x", "flag", "other", "when", "nope"]
+ALL_FIELDS = ["s", "n", "ts1", "ts2", "x", "y", "flag", "other", "when", "nope"]
 OPS = {"==": operator.eq, "<": operator.lt, ">": operator.gt, "<=": operator.le, ">=": operator.ge, "!=": operator.ne}
 
 
@@ -52,8 +54,10 @@ def dts():
 
 @st.composite
 def rec_spec(draw):
-    k = draw(st.sampled_from(["A", "A", "B", "C"]))
-    if k == "A":
+    k = draw(st.sampled_from(["A", "A", "A2", "B", "C"]))
+    if k == "A2":
+        vals = [draw(st.sampled_from(["a", "b", "c", ""])), draw(st.integers(0, 9)), draw(st.sampled_from(["y1", "y2"])), draw(dts())]
+    elif k == "A":
         vals = [draw(st.sampled_from(["a", "b", "c", ""])), draw(st.integers(0, 9)), draw(st.one_of(st.none(), dts())),
                 draw(dts()), draw(st.sampled_from(["x1", "x,2", 'q"3', "l\n4"]))]
     elif k == "B":
@@ -333,6 +337,8 @@ def check(case, ctx, subprocess_mode=False):
                 "no-compile:%s" % case["no_compile"])
         for s in case["sources"]:
             ctx.cls("source:" + s["kind"])
+        if {"A", "A2"} <= {r["k"] for s in case["sources"] for r in s["recs"]}:
+            ctx.cls("two-generations-of-one-type")
         if bad or 0 < len(expected) < n_in:
             ctx.nontriv()
         argv = list(paths)
